@@ -127,7 +127,9 @@ def sentence_diff(got, exp, tol=1e-9):
 def show_terms(terms):
     if not terms:
         return "0"
-    return " + ".join(f"({complex(t['c'][0], t['c'][1]) / (1 << t['c'][2])})*{''.join(LET[c] for c in t['w'])}" for t in terms)
+    def letter(c):
+        return LET[c] if isinstance(c, int) and 0 <= c < len(LET) else f"?{c}"
+    return " + ".join(f"({complex(t['c'][0], t['c'][1]) / (1 << t['c'][2])})*{''.join(letter(c) for c in t['w'])}" for t in terms)
 
 
 class Agg:
